@@ -912,6 +912,30 @@ theorem fact_conversation_lock_discipline :
     (Facts.C07.convLockEvents.filter (fun m => m.2.any (fun e => isMutexEv (evOf e.2)))).map (·.1) =
       ["check", "done", "evict", "resetTimeout", "startConversation"] := by decide
 
+/-- regenerated: the statements of the conversation manager that the model's conversation functions (Dag.lean `startConversation`,
+    `hasActive`, `evict`, `convDone`, `resetTimeout`, `findConv`/`convCheck`) mirror — the id is stamped and the conversation built
+    BEFORE the lock; only a `blockable` request asks `hasActiveConversation` and is refused (nil, nothing stored) or recorded as
+    the peer's last conversation under `peer.Key()`; active = the peer's last conversation is still stored and not expired;
+    evict deletes the expired ones; done deletes by id; resetTimeout only touches a stored conversation; check refuses an
+    unknown id and otherwise delegates to the request's `checkResponse` -/
+theorem fact_conversation_manager_flows :
+    Facts.C07.convFlow_startConversation = ["assign:cid := newConversationID()", "call:msg.setConversationID(cid)",
+      "assign:newConversation := &conversation{conversationID: cid, expiry: time.Now().Add(cMan.validity), conversationData: msg}",
+      "call:cMan.mutex.Lock()", "defer:cMan.mutex.Unlock()", "if:_, ok := msg.(blockable); ok", "if:cMan.hasActiveConversation(peer)",
+      "return:nil", "assign:cMan.lastPeerConversationID[peer.Key()] = cid", "assign:cMan.conversations[cid.String()] = newConversation",
+      "return:newConversation"] ∧
+    Facts.C07.convFlow_hasActiveConversation = ["if:lastPeerConv, ok := cMan.lastPeerConversationID[peer.Key()]; ok",
+      "if:conversation, ok := cMan.conversations[lastPeerConv.String()]; ok", "if:conversation.expiry.After(time.Now())", "return:true", "return:false"] ∧
+    Facts.C07.convFlow_evict = ["call:cMan.mutex.Lock()", "defer:cMan.mutex.Unlock()", "range:cMan.conversations",
+      "if:v.expiry.Before(time.Now())", "call:delete(cMan.conversations, k)"] ∧
+    Facts.C07.convFlow_done = ["call:cMan.mutex.Lock()", "defer:cMan.mutex.Unlock()", "call:delete(cMan.conversations, cid.String())"] ∧
+    Facts.C07.convFlow_resetTimeout = ["call:cMan.mutex.Lock()", "defer:cMan.mutex.Unlock()",
+      "if:conversation, exists := cMan.conversations[cid.String()]; exists", "assign:conversation.expiry = time.Now().Add(cMan.validity)"] ∧
+    Facts.C07.convFlow_check = ["assign:cidBytes := envelope.conversationID()", "assign:cid := conversationID(cidBytes)",
+      "call:cMan.mutex.RLock()", "defer:cMan.mutex.RUnlock()", "if:req, ok := cMan.conversations[cid.String()]; !ok",
+      "return:nil,fmt.Errorf(\"unknown or expired conversation (id=%s)\", cid)", "else",
+      "return:req,req.conversationData.checkResponse(envelope, data)"] := by decide
+
 /-- **A refused request, an unknown conversation, a failed response check … never leave the conversation manager locked.**
     For every method of the real `conversationManager` (regenerated event list) and EVERY exit point of it — each `return`,
     however deeply nested, and the end of the body — the mutex counters (writer, reader) are zero once the deferred calls
